@@ -147,6 +147,7 @@ func init() {
 			rules.T4(rc)
 			rules.T6(rc)
 			rules.K1w(rc, func(stem string) bool { return strings.Contains(stem, "denseTranspose") }, 4)
+			rules.LGuards(rc, "C03")
 			rules.O8(rc)
 		},
 	})
@@ -215,6 +216,7 @@ func init() {
 		Run: func(rc *rules.RC) {
 			rules.L0(rc, nil)
 			rules.LGuards(rc, "C04")
+			rules.LC(rc, 18)
 			rules.V1(rc)
 			rules.O8(rc)
 			rules.S9(rc)
@@ -260,6 +262,7 @@ func init() {
 		Run: func(rc *rules.RC) {
 			rules.LA(rc)
 			rules.LGuards(rc, "C10")
+			rules.LC(rc, 18)
 			rules.K1w(rc, func(stem string) bool { return strings.Contains(stem, "doViewStack") }, 4)
 			rules.E2(rc, fileFilterName("defaultengine_matop_misc.go", "defaultengine_matop_stack.go", "dense_matop_memmove.go", "array.go", "dense_assign.go"), 5)
 			rules.P2(rc, func(k string) bool {
@@ -308,6 +311,7 @@ func init() {
 		Run: func(rc *rules.RC) {
 			rules.L0(rc, nil)
 			rules.LGuards(rc, "C16")
+			rules.LC(rc, 18)
 			rules.T4(rc)
 			rules.S13(rc)
 			rules.S11(rc)
@@ -373,6 +377,7 @@ func init() {
 			rules.M7(rc, 300)
 			rules.L0(rc, nil)
 			rules.M4(rc, nil, 40)
+			rules.LGuards(rc, "C07")
 			rules.P3map(rc)
 			rules.EC(rc, fileFilterName("defaultengine_prep.go", "defaultengine_arith.go", "defaultengine_cmp.go", "defaultengine_unary.go", "defaultengine_minmax.go", "defaultengine_misc.go", "defaultengine_mapreduce.go", "dense_linalg.go", "utils.go", "flags.go"), 50)
 		},
